@@ -4,7 +4,7 @@ from .. import build, core, flow, gens, values
 from ..core import hx, unhx
 from . import progs, evalspec, speceval
 
-NAMES = ["a", "b", "c", "d"]
+NAMES = ["a", "b", "c", "d", "A", "ab"]     # case variants and extensions: bindings are keyed by the exact name
 SETTERS = ["=", "+=", "-=", "*=", "/=", "%=", "<<=", ">>=", "&=", "^=", "|="]
 VALS = [("n", Fraction(0)), ("n", Fraction(1)), ("n", Fraction(7)), ("n", Fraction(-3)), ("n", Fraction(5, 2)), ("n", Fraction(12)),
         ("b", True), ("b", False), ("s", "x"), ("s", ""), ("l", [("n", Fraction(1))]), ("N",), ("n", Fraction(63)), ("n", Fraction(2))]
